@@ -21,6 +21,6 @@ const Config cfgs[] = {
   {"ms/backoff_single/hp_s2_0_0", make_int<xenium::michael_scott_queue<int, xenium::policy::reclaimer<rc::HP_S<2, 0, 0>>, xenium::policy::backoff<xenium::single_backoff>>>},
 };
 QueueHarness h("queues_ms", cfgs, sizeof(cfgs) / sizeof(cfgs[0]));
-struct Reg { Reg() { xsim::register_harness(&h); } } reg;
+struct Reg { Reg() { xsim::register_harness(&h); hx::register_reclaimer_probes(); xsim::fn_pair_probe("michael_scott_queue: push overlaps pop_node", "michael_scott_queue&4pushE", "8pop_node"); xsim::fn_pair_probe("michael_scott_queue: two pop_node overlap", "8pop_node", "8pop_node"); } } reg;
 } // namespace
 XSIM_MAIN()
